@@ -91,3 +91,11 @@ package migrator
 //@   in migrator.(Migrator).FullDataTypeOf
 //@   min-sites 1
 //@   cover reached-with-an-empty-default-text: field.DefaultValue == "" [C20]
+
+//@ # the migration switches of the configuration are set when the handle is opened and never afterwards
+//@ immutable Config.DisableForeignKeyConstraintWhenMigrating
+//@   writers gorm.Open
+//@   tags C20
+//@ immutable Config.IgnoreRelationshipsWhenMigrating
+//@   writers gorm.Open
+//@   tags C20
